@@ -39,6 +39,11 @@ def run_case(job):
     ds2 = DFData(pd.DataFrame({"eg": [INPUTS[p][2] for p in prof]}))        # separate source: one dtype per data source
     ConstControl(net, "sink", "mdot_kg_per_s", element_index=list(net.sink.index), profile_name=["s%d" % i for i in range(len(base_sink))], data_source=ds)
     ConstControl(net, "ext_grid", "in_service", element_index=[net.ext_grid.index[0]], profile_name=["eg"], data_source=ds2)
+    two = job["net"] == "twoarea"
+    if two:
+        # two supplied areas: input "B" switches the second area's external grid off (feasible, but another supplied set), "X" both
+        ds3 = DFData(pd.DataFrame({"eg2": [p == "A" for p in prof]}))
+        ConstControl(net, "ext_grid", "in_service", element_index=[net.ext_grid.index[1]], profile_name=["eg2"], data_source=ds3)
     steps = [r - 1 for r in rows]
     ow = OutputWriter(net, steps, output_path=None, log_variables=LOGGED)
     raised, exc = False, ""
@@ -65,6 +70,8 @@ def run_case(job):
         fnet, _ = H.NETS[job["net"]]()
         fnet.sink["mdot_kg_per_s"] = base_sink * INPUTS[prof[t]][0]
         fnet.ext_grid.loc[fnet.ext_grid.index[0], "in_service"] = INPUTS[prof[t]][2]
+        if two:
+            fnet.ext_grid.loc[fnet.ext_grid.index[1], "in_service"] = (prof[t] == "A")
         try:
             pp.pipeflow(fnet, mode=mode, use_numba=False, iter=40)
             sa = _dig([fnet[tbl][col].values for tbl, col in LOGGED])
@@ -118,7 +125,7 @@ def main():
     beh = core.cached("c13beh" + sh, emit)
     jobs = []
     for i, b in enumerate([b for b in beh if not b["transient"]]):
-        for net, mode in (("branched", "hydraulics"), ("branched", "sequential"), ("gas", "hydraulics")):
+        for net, mode in (("branched", "hydraulics"), ("branched", "sequential"), ("gas", "hydraulics"), ("twoarea", "sequential")):
             jobs.append({"id": "ts%d.%s.%s" % (i, net, mode), "net": net, "mode": mode, "profile": b["profile"], "steps": b["steps"], "cod": b["cod"]})
     if tr == "quick":
         # stratified: complete ascending runs, and subsets / reorderings of the rows
